@@ -1023,15 +1023,18 @@ package fs
 //@   ensures forall x {raw(targetKey, x)} :: x < base(targetKey) || x >= base(targetKey) + 16 ==> raw(targetKey, x) == old(raw(targetKey, x))
 
 //@ ghost keyreadfail int log            -- number of key files whose reading / decoding failed
+// ReadKeyFile: the body is verified for what the callers' safety depends on (a key is always exactly 16 bytes:
+// deriveISOKey panics on any other length); what the hex decoder yields is assumed.
 //@ func ReadKeyFile results(key, err)
 //@   tags C04,C10,C11
-//@   trusted
 //@   requires f != nil
-//@   modifies fpos[f], iofaults
+//@   modifies fpos, iofaults
 //@   update keyreadfail = keyreadfail + (err != nil ? 1 : 0)
-//@   ensures err != afero.ErrFileNotFound
-//@   ensures len(key) == 16 && iofaults >= old(iofaults) && fresh(key.$arr)
-//@   ensures[C11] err == nil ==> forall q :: 0 <= q && q < 16 ==> key[q] == hexkey(fcontent[f])[q] @hex-decoded
+//@   ensures[ASSUMED] err != afero.ErrFileNotFound
+//@   ensures[C04] len(key) == 16 && fresh(key.$arr) @a-key-is-one-cipher-block
+//@   ensures iofaults >= old(iofaults)
+//@   ensures[ASSUMED,C11] err == nil ==> forall q :: 0 <= q && q < 16 ==> key[q] == hexkey(fcontent[f])[q] @hex-decoded
+//@   ensures[ASSUMED] forall g {fpos[g]} :: g != f && old(allocated(g)) ==> fpos[g] == old(fpos[g]) @only-the-key-file-is-consumed
 //@   ensures iofaults == old(iofaults) ==> true
 
 //@ func NewEncryptedISO results(e, err)
